@@ -183,6 +183,8 @@ func runSvcChunk(r *h.Result, scs []*scenario, base int, judge func(*h.Result, *
 		r.CountN("svc:connect-fail", res.stats["connect-fail"])
 		r.CountN("svc:silent-iteration", res.stats["silent-iteration"])
 		r.CountN("svc:stop", res.stats["stop"])
+		r.CountN("svc:watchdog-ping", res.stats["ping"])
+		r.CountN("svc:watchdog-ping-failed-client-dropped", res.stats["ping-fail"])
 		if nonRect {
 			r.Count("svc:with-malformed-request")
 		}
